@@ -175,6 +175,7 @@ class JobFork:
     def __init__(self, forced=()):
         self.forced = list(forced)
         self.decided = {}
+        self.decided_atoms = set()      # keys of the predicate atoms a branch was decided on (C17.H6)
         self.log = []
 
     def decide(self, cond, where):
@@ -192,6 +193,8 @@ class JobFork:
         # not used by the algebra, so it is not reported as a violation there (check._run_job); rules about effects and
         # aliasing do not depend on values and stay definite.  The other outcome is the generic case.
         pa = pred_atom(cond)
+        if pa:
+            self.decided_atoms.add(pa[0])
         if pa and pa[0][0] == 'qpred':
             truth = d if pa[1] else (not d)
             if (pa[0][1] == 'any' and not truth) or (pa[0][1] == 'all' and truth):
